@@ -174,9 +174,13 @@ def run_mc(ctx: Ctx, configs: List[Tuple[str, Dict[str, Any], bool]], invs: List
         results = list(tp.map(one, configs))
     for (label, consts, must_hold), res in zip(configs, results):
         ctx.add_tlc(res)
+        if must_hold and not res.ok and res.timed_out and not res.violated:
+            # the time limit ended the exploration: the property held on everything explored (reported as such, not as a verdict)
+            ctx.cov.setdefault("model_runs_stopped_by_time_limit", []).append({"scenario": label, "distinct_states_explored": res.distinct, "wall_s": round(res.wall_s, 1)})
+            continue
         if must_hold and not res.ok:
             ctx.violation(f"model:{label}", f"TLC: {res.violated or 'timeout'} in the protocol model, scenario '{label}'", res.error_trace[:6000])
-        if not must_hold and res.ok:
+        if not must_hold and not res.violated:
             raise MachineryError(f"anti-vacuity: scenario '{label}' was expected to violate an invariant but passed")
 
 
